@@ -53,6 +53,12 @@ def gen_text(rng):
         headers.append(line)
     for _ in range(rng.choice([0, 2, 4])):
         headers.append(rng.choice(OTHER))
+    if rng.random() < 0.08:
+        # the Metadata 1.x layout: the long description is a folded header, its continuation lines are indented -
+        # and may look like fields
+        cont = [rng.choice(["Requires-Dist: legacy-shim<1.0", "Version: 0.0.1", "Name: not-the-name", "Changelog", "requires-dist: six"])
+                for _ in range(rng.randint(1, 3))]
+        headers.append("Description: A long text" + "".join("\n        " + c for c in cont))
     rng.shuffle(headers)
     if rng.random() < 0.05:
         headers.append(case_variant(rng, "Name") + ": second-name")
@@ -132,6 +138,8 @@ class TextStream(Stream):
         hb = lines[:cut]
         leak = any(l.lower().startswith(("name:", "version:", "requires-dist:")) for l in body)
         folded = any(l[:1] in (" ", "\t") for l in hb)
+        # a continuation line of some *other* header that would read as a field if its indentation were ignored
+        self._lookalike = any(l[:1] in (" ", "\t") and l.strip().lower().startswith(("name:", "version:", "requires-dist:")) for l in hb)
         return leak, folded
 
     def flags(self, case, r):
@@ -156,6 +164,10 @@ class TextStream(Stream):
         ref = reference(case["text"])
         leak, folded = self._classify(case["text"])
         region = "body-line-read-as-field" if leak else ("folded-header" if folded else "plain")
+        if region == "folded-header" and self._lookalike and not any(
+                l.lower().startswith("requires-dist:") and i + 1 < len(ls) and ls[i + 1][:1] in (" ", "\t")
+                for ls in [case["text"].replace("\r\n", "\n").split("\n")] for i, l in enumerate(ls)):
+            region = "continuation-line-looks-like-a-field"      # no Requires-Dist is folded here: D4b does not apply
         if ref["name"] is None:
             if "error" not in r:
                 return [("C11/no-name-but-distribution/" + region, {"got": r})]
